@@ -57,12 +57,16 @@ variable {Q : QRel} {cx : Cx} {D : List DName}
 
 /-! ### exact steps on the left -/
 
-theorem SoundE.step {a m b} (h : EqE a m) (ih : SoundE Q cx D m b) : SoundE Q cx D a b := by
+theorem SoundE.step {a m b} (h : LeE cx.upto a m) (ih : SoundE Q cx D m b) : SoundE Q cx D a b := by
   intro N call ρ k env env' σ σ' β hc hs he
-  rw [← h N call ρ k env σ]; exact ih N call ρ k env env' σ σ' β hc hs he
-theorem SoundT.step {a m b} (h : EqT a m) (ih : SoundT Q cx D m b) : SoundT Q cx D a b := by
+  cases h N call ρ k env σ with
+  | inl h => rw [h.2]; exact RRel.timeout_left h.1 _
+  | inr h => rw [← h]; exact ih N call ρ k env env' σ σ' β hc hs he
+theorem SoundT.step {a m b} (h : LeT cx.upto a m) (ih : SoundT Q cx D m b) : SoundT Q cx D a b := by
   intro N call ρ k env env' σ σ' β hc hs he
-  rw [← h N call ρ k env σ]; exact ih N call ρ k env env' σ σ' β hc hs he
+  cases h N call ρ k env σ with
+  | inl h => rw [h.2]; exact RRel.timeout_left h.1 _
+  | inr h => rw [← h]; exact ih N call ρ k env env' σ σ' β hc hs he
 
 /-! ### expressions -/
 
